@@ -1,4 +1,5 @@
 """Shared anchors of the server loop (Server::run, handle_call, get_next_call, SelectAll)."""
+import re
 import mir
 from mir import op_place, op_str, place_fields
 import common as C
@@ -51,7 +52,7 @@ class Srv:
             if l.get('name') and 'Vec<' in ty and l.get('user') and not l.get('from') and not ty.startswith('&'):
                 if ty.startswith('std::vec::Vec<connection::Connection<') or ty.startswith('alloc::vec::Vec<connection::Connection<'):
                     self.conn_vec = l['i']
-                elif 'Vec<server::ReplyStream<' in ty:
+                elif re.search(r'Vec<server::(\w+::)*\w*Stream\w*<', ty):
                     self.stream_vec = l['i']
         if self.conn_vec is None or self.stream_vec is None:
             self.errors.append('connection list / reply-stream list locals not found in Server::run')
